@@ -129,6 +129,52 @@ def w_very_wide(jobs):
     return evs
 
 
+def w_orders(elements):
+    """Every known element with a valid child sequence put OUT OF ORDER: all permutations of the shortest non-empty accepted
+    sequences (up to 5 children), and for a longer accepted walk its reversal, rotations and adjacent swaps; also with one
+    child doubled / dropped.  Whatever the verdict, only rule errors and only through the list."""
+    import itertools
+    from metapype.model.node import Node
+    from harness import c01
+    t = G["t"]
+    evs = []
+    for el in elements:
+        unit = t.node_map[el]
+        d = t.dfas.get(unit)
+        if d is None or unit not in t.rules:
+            continue
+        sig = [a for a in d.sigma if not a.startswith("~")]
+        # breadth-first: accepted words of increasing length
+        frontier, found = [((), d.init)], []
+        for _ in range(6):
+            nxt = []
+            for w, st in frontier:
+                for a in sig:
+                    w2, s2 = w + (a,), d.delta[st][a]
+                    nxt.append((w2, s2))
+                    if d.out[s2] == "ACCEPT" and len(found) < 3 and len(set(w2)) >= min(2, len(sig)):
+                        found.append(w2)
+            frontier = nxt[:400]
+            if len(found) >= 3:
+                break
+        variants = set()
+        for w in found:
+            if len(w) <= 5:
+                variants |= set(itertools.permutations(w))
+            else:
+                variants |= {tuple(reversed(w)), w[1:] + w[:1], w[-1:] + w[:-1]}
+                variants |= {w[:i] + (w[i + 1], w[i]) + w[i + 2:] for i in range(len(w) - 1)}
+            variants |= {w + (w[0],), w[1:], w[:-1], (w[-1],) + w}
+        root = Node("zzOrders")
+        for w in sorted(variants)[:150]:
+            root.add_child(c01.realise(unit, el, list(w), t.rules))
+        ev = valtrace.observe_tree(root)
+        ev["desc"] = {"base": "child orders", "element": el, "sequences": len(variants)}
+        evs.append(ev)
+        Node.store.clear()
+    return evs
+
+
 def stale_parent_cases():
     """Trees whose ROOT carries a parent pointer to a node that does not list it (a copy of an inner branch keeps the original's
     parent, remove_child leaves the pointer, the constructor takes parent= without attaching): still trees."""
@@ -227,6 +273,7 @@ def run(rep, tier, seed):
     evs = [e for chunk in parallel(w_cases, [seed * 1000003 + i for i in range(n)]) for e in chunk]
     evs += [e for chunk in parallel(w_sweep, sorted(t.node_map)) for e in chunk]
     evs += stale_parent_cases()
+    evs += [e for chunk in parallel(w_orders, sorted(x for x in t.node_map if x != "metadata")) for e in chunk]
     widths = [1100, 2500] if tier == "quick" else [1100, 2500, 6000]
     evs += [e for chunk in parallel(w_very_wide, [(k, nm, w) for (k, nm) in VERY_WIDE for w in widths], chunk=1) for e in chunk]
     strip = lambda e: {k: v for k, v in e.items() if k != "desc"}  # noqa: E731
